@@ -1,6 +1,6 @@
 /-
   Lemmas for property C16, wrapper half: the element wrappers of /repo/sm2/internal/fiat
-  (SetBytes, Bytes, the scalar SetBytes with its early-exit comparison, MultiSelect, Select) over
+  (SetBytes, Bytes, the scalar SetBytes (the same code since its repair), MultiSelect, Select) over
   the Montgomery-residue instance `montOps P`:
     * byte conversion round-trips and is canonical (`bytes_setBytes`, `setBytes_bytes`);
     * decoding accepts exactly the 32-byte strings whose big-endian value is below the modulus,
@@ -162,52 +162,9 @@ theorem setBytes_spec (hm : 1 < P.m) (hm256 : P.m ≤ 2 ^ 256) (hr : (R * P.rinv
       simp only [this, if_true, hlt, if_false]
   · simp [hl]
 
-theorem scalarSetBytesCheck_iff (v m1 : Bytes) (h : v.length = m1.length) :
-    scalarSetBytesCheck v m1 = true ↔ lexCmp v m1 = 1 := by
-  induction v generalizing m1 with
-  | nil =>
-    cases m1 with
-    | nil => simp [scalarSetBytesCheck, lexCmp]
-    | cons b ys => simp at h
-  | cons a xs ih =>
-    cases m1 with
-    | nil => simp at h
-    | cons b ys =>
-      simp only [List.length_cons, Nat.add_right_cancel_iff] at h
-      simp only [scalarSetBytesCheck, lexCmp, gt_iff_lt]
-      by_cases h1 : a < b
-      · simp [h1]
-      · by_cases h2 : b < a
-        · simp [h1, h2]
-        · simp only [h1, h2, if_false]; exact ih ys h
-
-theorem scalarSetBytes_eq_setBytes (hm : 1 < P.m) (hm256 : P.m ≤ 2 ^ 256)
-    (hr : (R * P.rinv) % P.m = 1) (v : Bytes) :
-    Model.Field.scalarSetBytes (montOps P) v = Model.Field.setBytes (montOps P) v := by
-  rw [setBytes_spec P hm hm256 hr]
-  unfold Model.Field.scalarSetBytes
-  by_cases hl : v.length = 32
-  · have hl1 := minusOneEncoding_length P hm hr
-    have hv1 := minusOneEncoding_toNatBE P hm hm256 hr
-    have hchk := scalarSetBytesCheck_iff v (Model.Field.minusOneEncoding (montOps P)) (by omega)
-    have hgt := lexCmp_gt_iff_toNat v (Model.Field.minusOneEncoding (montOps P)) (by omega)
-    rw [hv1] at hgt
-    have hres : (montOps P).toMontgomery ((montOps P).fromBytesLE v.reverse)
-        = Bytes.toNatBE v * R % P.m := by
-      simp [montOps]
-    rw [hres]
-    simp only [hl, ne_eq, not_true_eq_false, if_false, true_and]
-    by_cases hlt : Bytes.toNatBE v < P.m
-    · have : ¬ scalarSetBytesCheck v (Model.Field.minusOneEncoding (montOps P)) = true := by
-        intro hc
-        have := hgt.mp (hchk.mp hc)
-        omega
-      simp only [this, hlt, if_true]
-      simp
-    · have : scalarSetBytesCheck v (Model.Field.minusOneEncoding (montOps P)) = true :=
-        hchk.mpr (hgt.mpr (by omega))
-      simp only [this, hlt, if_true, if_false]
-  · simp [hl]
+/-- `SM2ScalarElement.SetBytes` is now literally the code of `SM2Element.SetBytes` -/
+theorem scalarSetBytes_eq_setBytes {α : Type} (F : Model.Field.FieldOps α) (v : Bytes) :
+    Model.Field.scalarSetBytes F v = Model.Field.setBytes F v := rfl
 
 theorem bytes_setBytes (hm : 1 < P.m) (hm256 : P.m ≤ 2 ^ 256) (hr : (R * P.rinv) % P.m = 1)
     (v : Bytes) (x : Nat) (h : Model.Field.setBytes (montOps P) v = .ok x) :
